@@ -69,6 +69,10 @@ func c03Eval(arg string, row Row) c03Cell {
 		return un("w", func(x float64) float64 { return x * 3 })
 	case "w-1":
 		return un("w", func(x float64) float64 { return x - 1 })
+	case "v-1":
+		return un("v", func(x float64) float64 { return x - 1 })
+	case "o.x-2.5":
+		return un("o.x", func(x float64) float64 { return x - 2.5 })
 	case "v+w":
 		return bin("v", "w", func(x, y float64) float64 { return x + y })
 	case "v-w":
